@@ -358,6 +358,65 @@ func main() {
 		return "direct"
 	}
 	out.Def("sortedArg", "String", xlib.LeanStr(copies("sorted")))
+
+	// ---- sorted: how reverse= is honoured and which sort function runs
+	//   flip-comparator: `order := LessThan; if reverse { order = GreaterThan }` and the comparison uses `order`
+	//   reverse-after:   a call of slices.Reverse / sort.Reverse on the result
+	{
+		fn := b.Func("sorted")
+		flips, usesOrder, revAfter := false, false, false
+		sortFns := map[string]bool{}
+		orderVar := ""
+		ast.Inspect(fn.Body, func(n ast.Node) bool {
+			switch t := n.(type) {
+			case *ast.IfStmt:
+				if id, ok := t.Cond.(*ast.Ident); ok && id.Name == "reverse" {
+					for _, st := range t.Body.List {
+						if as, ok := st.(*ast.AssignStmt); ok && len(as.Lhs) == 1 && len(as.Rhs) == 1 && b.Src(as.Rhs[0]) == "GreaterThan" {
+							flips = true
+							orderVar = b.Src(as.Lhs[0])
+						}
+					}
+				}
+			case *ast.CallExpr:
+				f := b.Src(t.Fun)
+				switch {
+				case f == "slices.Reverse" || f == "sort.Reverse":
+					revAfter = true
+				case strings.HasPrefix(f, "sort.") || strings.HasPrefix(f, "slices.Sort"):
+					sortFns[f] = true
+				}
+			}
+			return true
+		})
+		if orderVar != "" {
+			ast.Inspect(fn.Body, func(n ast.Node) bool {
+				if ce, ok := n.(*ast.CallExpr); ok && strings.HasSuffix(b.Src(ce.Fun), ".operator") && len(ce.Args) >= 1 && b.Src(ce.Args[0]) == orderVar {
+					usesOrder = true
+				}
+				return true
+			})
+		}
+		mode := ""
+		switch {
+		case flips && usesOrder && !revAfter:
+			mode = "flip-comparator"
+		case revAfter && !(flips && usesOrder):
+			mode = "reverse-after"
+		default:
+			xlib.Unreadable("sorted: cannot tell how reverse= is honoured (flips=%v usesOrder=%v reverseAfter=%v)", flips, usesOrder, revAfter)
+		}
+		var fns []string
+		for f := range sortFns {
+			fns = append(fns, f)
+		}
+		sort.Strings(fns)
+		if len(fns) == 0 {
+			xlib.Unreadable("sorted: no sort function call found")
+		}
+		out.Def("sortedReverse", "String", xlib.LeanStr(mode))
+		out.Def("sortedSortFns", "List String", xlib.LeanStrList(fns))
+	}
 	out.Def("reversedArg", "String", xlib.LeanStr(copies("reversed")))
 
 	// ---- Constant(): a branch on expr.Val.List that returns an evaluated object
